@@ -96,6 +96,8 @@ def random_case(ctx, idx, rng):
             m, n = n, m
     lay = str(rng.choice(['zero', 'sorted', 'unsorted', 'q0sorted', 'q1sorted', 'disjoint', 'big', 'pairs', 'negative', 'repeated', 'huge', 'extreme-signs', 'int8', 'wrap-sorted', 'wrap-sorted-int8', 'int8-small']))
     r = int(rng.integers(1, 4))
+    if big >= 160 and rng.random() < 0.4:
+        lay = 'many-sectors'
     if lay == 'q0sorted':
         q0 = gen.qvec(rng, m, 'sorted', r); q1 = gen.qvec(rng, n, 'unsorted', r)
     elif lay == 'q1sorted':
